@@ -34,12 +34,13 @@ struct Shared {
 }
 
 fn spawn() -> std::io::Result<(Child, Arc<Shared>, std::thread::JoinHandle<()>)> {
-    spawn_delayed(Duration::ZERO)
+    spawn_delayed(Duration::ZERO, None)
 }
 
 /// `reader_delay`: the client does not read the server's output before that time has passed
 /// (a slow client: the pipe fills up and the server's writer is blocked meanwhile)
-fn spawn_delayed(reader_delay: Duration) -> std::io::Result<(Child, Arc<Shared>, std::thread::JoinHandle<()>)> {
+/// `throttle`: afterwards it reads at most that many bytes per read and pauses in between
+fn spawn_delayed(reader_delay: Duration, throttle: Option<(usize, Duration)>) -> std::io::Result<(Child, Arc<Shared>, std::thread::JoinHandle<()>)> {
     let mut child = Command::new(binary()).env("TOKIO_WORKER_THREADS", "4").stdin(Stdio::piped()).stdout(Stdio::piped()).stderr(Stdio::null()).spawn()?;
     let mut out = child.stdout.take().unwrap();
     let shared = Arc::new(Shared { buf: Mutex::new((vec![], false)), cv: Condvar::new() });
@@ -50,13 +51,17 @@ fn spawn_delayed(reader_delay: Duration) -> std::io::Result<(Child, Arc<Shared>,
             std::thread::sleep(reader_delay);
         }
         loop {
-            match out.read(&mut b) {
+            let want = throttle.map(|t| t.0.min(b.len())).unwrap_or(b.len());
+            match out.read(&mut b[..want]) {
                 Ok(0) | Err(_) => break,
                 Ok(n) => {
                     let mut g = s2.buf.lock().unwrap();
                     g.0.extend_from_slice(&b[..n]);
                     s2.cv.notify_all();
                 }
+            }
+            if let Some((_, pause)) = throttle {
+                std::thread::sleep(pause);
             }
         }
         let mut g = s2.buf.lock().unwrap();
@@ -120,9 +125,9 @@ fn finish(mut child: Child, shared: Arc<Shared>, reader: std::thread::JoinHandle
 
 /// Slow client: everything is written in one go (from a thread of its own, the pipe to the
 /// server may fill up as well), stdin is closed, and the output is read only after `delay`.
-pub fn run_slow_reader(bytes: Vec<u8>, delay: Duration, limit: Duration) -> ProcOutcome {
+pub fn run_slow_reader(bytes: Vec<u8>, delay: Duration, throttle: Option<(usize, Duration)>, limit: Duration) -> ProcOutcome {
     let mut o = ProcOutcome::default();
-    let Ok((mut child, shared, reader)) = spawn_delayed(delay) else {
+    let Ok((mut child, shared, reader)) = spawn_delayed(delay, throttle) else {
         o.frame_error = Some("cannot spawn the binary".into());
         return o;
     };
